@@ -3976,6 +3976,12 @@ class BoutMesh(Mesh):
             options_dict = dict(self.equilibrium.user_options)
             options_dict.update(self.equilibrium.nonorthogonal_options)
             options_dict.update(self.user_options)
+            # Values passed as numpy scalars (e.g. numpy.float64) must be saved as plain
+            # Python numbers, otherwise the YAML cannot be read by yaml.safe_load()
+            options_dict = {
+                key: value.item() if isinstance(value, numpy.generic) else value
+                for key, value in options_dict.items()
+            }
             f.write("hypnotoad_inputs_yaml", yaml.dump(options_dict))
 
             f.write_file_attribute("hypnotoad_version", self.version)
